@@ -56,7 +56,7 @@ def fit_model(p, X, y, Xv, yv, c=1.0):
     t = lambda a: torch.from_numpy(a).to(torch.float64)
     model = RFM(kernel=p['kernel'], bandwidth=p['base'], exponent=p['q'], norm_p=p.get('p'), bandwidth_mode='adaptive',
                 diag=p['diag'], device='cpu', verbose=False, tuning_metric='mse')
-    rec = ScriptedFit(model, scores=None)
+    rec = ScriptedFit(model, scores=p.get('script'))
     model.fit((t(X * c), t(y)), (t(Xv * c), t(yv)), iters=p['iters'], reg=REG, verbose=False,
               early_stop_rfm=False, return_best_params=p['return_best'])
     return model, rec
@@ -96,6 +96,33 @@ def numpy_median_interval(p, centers, mat):
     s = np.sort(D)
     N = len(s)
     return float(s[(N - 1) // 2]), float(s[N // 2])
+
+
+def grad_eps_pairs(p, model, rec):
+    """Number of pairs of *distinct* centers that the gradient (AGOP) code of the kernel treats as coincident in some
+    iterate of this fit: its absolute threshold `eps` (1e-10) is compared with the distance (L2, light, Lpq) or with
+    distance^q (product kernel).  Such a pair contributes no gradient at this scale but does at a larger one."""
+    import numpy as np
+    kind = KIND[p['kernel']]
+    eps = float(getattr(model.kernel_obj, 'eps', 0.0))
+    C = model.centers.double().numpy()
+    off = ~np.eye(len(C), dtype=bool)
+    worst = 0
+    for it in rec.iterates:
+        mat_t = it[1] if kind == 'light' else it[2]
+        mat = None if mat_t is None else mat_t.double().numpy()
+        if kind == 'light':
+            XM = C if mat is None else (C * mat[None, :] if mat.ndim == 1 else C @ mat)
+            xx = (XM * C).sum(1)
+            D = np.sqrt(np.maximum(xx[:, None] - 2 * XM @ C.T + xx[None, :], 0))
+        else:
+            U = C if mat is None else (C * mat[None, :] if mat.ndim == 1 else C @ mat)
+            pn = {'laplace': 2.0, 'product': p['q'], 'lpq': p.get('p')}[kind]
+            D = (np.abs(U[:, None, :] - U[None, :, :]) ** pn).sum(-1) ** (1.0 / pn)
+            if kind == 'product':
+                D = D ** p['q']
+        worst = max(worst, int(((D < eps) & off).sum()))
+    return worst
 
 
 def rounding_bound(p, model, Xt_scaled):
@@ -192,8 +219,13 @@ def run_fit_case(p, drv):
                     and abs(s[mc.best_iter] - s[model.best_iter]) <= max(1e-7, 10 * allow) * max(abs(s[model.best_iter]), 1e-300):
                 ties += 1
                 continue
-            res['failures'].append({'signature': 'C19:not-scale-invariant',
-                                    'detail': f'scale {c}: predictions differ by {rel:.3e} (relative to max |prediction| {den:.3g}), allowance {allow:.3e}; '
+            # diagnosis: the gradient code's absolute coincidence threshold eps=1e-10 (compared with dist, or dist^q for the
+            # product kernel) masks pairs of distinct centers at one scale only
+            n_masked = max(grad_eps_pairs(p, mc, rc), grad_eps_pairs(p, model, rec)) if p['iters'] > 0 else 0
+            sig = f'C19:not-scale-invariant:grad-eps-threshold:{type(kobj).__name__}' if n_masked else 'C19:not-scale-invariant'
+            res['failures'].append({'signature': sig,
+                                    'detail': (f'[{n_masked} pair(s) of distinct centers fall below the absolute threshold eps={getattr(kobj, "eps", None)} of the gradient code at one of the two scales] ' if n_masked else '') +
+                                              f'scale {c}: predictions differ by {rel:.3e} (relative to max |prediction| {den:.3g}), allowance {allow:.3e}; '
                                               f'bandwidth {float(mc.kernel_obj.bandwidth)!r} vs {c} x {bw!r}; best_iter {mc.best_iter} vs {model.best_iter} '
                                               f'({p["kernel"]}, q={p["q"]}, p={p.get("p")}, diag={p["diag"]}, iters={p["iters"]}, return_best={p["return_best"]}, n={p["n"]}, d={p["d"]})'})
         else:
@@ -204,7 +236,7 @@ def run_fit_case(p, drv):
     sel = model.best_iter if p['return_best'] else p['iters']
     res['nontrivial'] = [p['kernel'], p['q'], p.get('p'), p['diag'], p['iters'], p['return_best'], p['n'], p['d'], p['seed']] \
         if (abs(bw / base - 1.0) > 1e-3 and not guard) else None
-    res['dist'] = {'kernel': p['kernel'], 'q': p['q'], 'diag': p['diag'], 'iters': p['iters'], 'return_best': p['return_best'],
+    res['dist'] = {'kernel': p['kernel'], 'q': p['q'], 'diag': p['diag'], 'iters': p['iters'], 'return_best': p['return_best'], 'validation_scores': 'scripted' if p.get('script') else 'real',
                    'selected_iterate': 'first' if sel == 0 else 'last' if sel == p['iters'] else 'middle',
                    'transform_in_use': 'none' if mat is None else ('diag' if mat.ndim == 1 else 'full'),
                    'n_bucket': '<=25' if p['n'] <= 25 else '<=60' if p['n'] <= 60 else '>60',
@@ -274,8 +306,16 @@ def gen_cases(run):
             pn = r.choice([q, 2.0, (q + 2.0) / 2, round(r.uniform(q, 2.0), 3)])
         n = r.choice([10, 11, 16, 24, 25, 26, 27, 40, 61, 90, 120]) if quick else r.randint(10, 120)
         scales = [1e-3, 1e3] + r.sample(SCALES[1:-1], 2) if quick else list(SCALES) + [round(math.exp(r.uniform(math.log(1e-3), math.log(1e3))), 6)]
+        iters = r.choice([0, 1, 2, 3])
+        return_best = r.random() < 0.7
+        script = None
+        if iters >= 1 and return_best and r.random() < 0.5:
+            # scripted validation scores (mse: lower is better) put the selected iterate at a chosen position, so that
+            # restoration of the bandwidth together with M/sqrtM/weights is exercised for first / middle / last iterates
+            best = r.randint(0, iters)
+            script = [1.0 + 0.1 * (k + 1) if k != best else 0.5 for k in range(iters + 1)]
         cases.append(dict(family='adaptive-fit', kernel=kernel, q=q, p=pn, base=round(math.exp(r.uniform(math.log(0.1), math.log(10.0))), 6),
-                          diag=r.random() < 0.4, iters=r.choice([0, 1, 2, 3]), return_best=r.random() < 0.7,
+                          diag=r.random() < 0.4, iters=iters, return_best=return_best, script=script,
                           n=n, d=r.randint(2, 6), nv=r.randint(5, 30), nt=r.randint(3, 20), outputs=r.choice([1, 1, 2]),
                           correlated=r.random() < 0.5, spread=r.choice([1.0, 1.0, 0.05, 30.0]), shift=r.choice([0.0, 0.0, 5.0]),
                           scales=sorted(scales), seed=r.randint(0, 2 ** 31 - 1)))
@@ -301,6 +341,7 @@ def check(run):
     run.assumptions = ['training sets below the 5,000-row subsample limit (no random subsampling of the distance matrix)',
                        'pairwise distinct rows: the median distance is >= 1e-14 at every scale (the `< 1e-14 -> 1` guard of _adapt_bandwidth does not fire)',
                        'early_stop_rfm=False, solver "solve", reg=1e-3, float64 tensors, CPU',
+                       'in about a third of the fits the validation scores are scripted (same script at every scale) to place the selected iterate first / in the middle / last',
                        'theorem fit_scale_invariant is conditional on a scale-covariant AGOP step (not proved); the correspondence tests it end to end',
                        'if rescaling changes the selected iterate only because two validation scores agree to 1e-7 relative, the case is counted as near-tie, not as a failure']
     _single_thread_blas()
